@@ -21,7 +21,15 @@ func (m *Map[K, V]) ToJSON() ([]byte, error) {
 
 // FromJSON populates the map from the input JSON representation.
 func (m *Map[K, V]) FromJSON(data []byte) error {
-	return json.Unmarshal(data, &m.m)
+	elements := make(map[K]V)
+	err := json.Unmarshal(data, &elements)
+	if err == nil {
+		m.Clear()
+		for key, value := range elements {
+			m.Put(key, value)
+		}
+	}
+	return err
 }
 
 // UnmarshalJSON @implements json.Unmarshaler
